@@ -323,6 +323,9 @@ func (g *Gen) genCreateBatch() *eng.Tx {
 		return nil
 	}
 	s := g.date()
+	if bs := g.boundaryStart(); bs != nil {
+		s = *bs
+	}
 	e := g.date()
 	switch g.R.Intn(5) {
 	case 0:
@@ -808,3 +811,36 @@ func (g *Gen) genBankSend() *eng.Tx {
 }
 
 var _ = time.Second
+
+// boundaryStart aims a batch start date at the date-criterion boundary of an existing basket:
+// exactly on it, one nanosecond / one second either side, or slightly ahead of a moving window.
+func (g *Gen) boundaryStart() *time.Time {
+	if len(g.V.BasketList) == 0 || !g.chance(g.P.Boundary) {
+		return nil
+	}
+	bk := g.V.BasketList[g.R.Intn(len(g.V.BasketList))]
+	c := bk.DateCriteria
+	if c == nil {
+		return nil
+	}
+	var min time.Time
+	switch {
+	case c.MinStartDate != nil:
+		min = c.MinStartDate.AsTime()
+	case c.StartDateWindow != nil:
+		if c.StartDateWindow.Seconds > 9_000_000_000 {
+			return nil
+		}
+		min = g.Now.Add(-c.StartDateWindow.AsDuration())
+	case c.YearsInThePast != 0:
+		min = time.Date(g.Now.Year()-int(c.YearsInThePast), 1, 1, 0, 0, 0, 0, time.UTC)
+	default:
+		return nil
+	}
+	d := []time.Duration{0, time.Nanosecond, -time.Nanosecond, time.Second, -time.Second, 500 * time.Millisecond, 5 * time.Second, 30 * time.Second}[g.R.Intn(8)]
+	t := min.Add(d).UTC()
+	if t.Year() < 1 || t.Year() > 9999 {
+		return nil
+	}
+	return &t
+}
